@@ -77,7 +77,7 @@ Qed.
 Lemma U_queue_requeue s qn u c h : U (queue_requeue s qn u) c h = U s c h.
 Proof.
   unfold queue_requeue. destruct (get_queue s qn) as [qu|]; auto. destruct (negb (q_active qu)); auto.
-  apply U_same_conns. cbn. apply conns_upd_msg.
+  apply U_same_conns. cbn. rewrite conns_upd_msg. apply store_writeback_frame.
 Qed.
 Lemma U_chan_ackmsg s u c h : U (chan_ackmsg s u) c h = U s c h.
 Proof. unfold chan_ackmsg. destruct (origin_queue s u); [apply U_queue_ackmsg|reflexivity]. Qed.
